@@ -121,7 +121,29 @@ def acyclic_shape(R, depth):
 
 
 def cyclic_shape(R):
-    kind = R.choice(["self-list", "self-dict", "two-cycle", "three-cycle", "under-prefix", "branching", "branching-dict", "branching-3"])
+    kind = R.choice(["self-list", "self-dict", "two-cycle", "three-cycle", "under-prefix", "branching", "branching-dict", "branching-3",
+                     "two-cycle-lists", "three-cycle-lists", "two-cycle-dicts", "four-cycle-dicts"])
+    if kind == "two-cycle-lists":
+        a, b = [], []
+        a.append(b)
+        b.append(a)
+        return a, kind, 2, 1
+    if kind == "three-cycle-lists":
+        a, b, c = [], [], []
+        a.append(b)
+        b.append(c)
+        c.append(a)
+        return a, kind, 3, 1
+    if kind == "two-cycle-dicts":
+        a, b = {}, {}
+        a["x"] = b
+        b["x"] = a
+        return a, kind, 2, 1
+    if kind == "four-cycle-dicts":
+        ds = [{} for _ in range(4)]
+        for i_, d_ in enumerate(ds):
+            d_["n"] = ds[(i_ + 1) % 4]
+        return ds[0], kind, 4, 1
     if kind == "self-list":
         a = [1]
         a.append(a)
@@ -276,6 +298,8 @@ def run_shard(spec, rec):
             if limit > 400 and R.random() < 0.7:
                 limit = R.choice(limits[:10])
             N = max(1, limit + R.choice([-2, -1, 0, 0, 1, 1, 2]))
+            if limit <= 100 and R.random() < 0.04:
+                N = limit + R.choice([1500, 3000, 5000])   # homogeneous nesting far beyond the limit
             doc, form = acyclic_shape(R, N)
             N = nesting(doc)
             prefix = R.random() < 0.15
@@ -324,6 +348,36 @@ def run_shard(spec, rec):
             rec.feat("cyclic:%s:%s:%s" % (mode, kind, r))
             if r:
                 rec.sample({"query": text, "limit": limit, "structure": kind, "mode": mode, "outcome": r}, limit=6)
+    # a document traversed completely first and then deepened (or made cyclic) in place, same compiled query
+    for _ in range(6):
+        limit = R.choice([3, 5, 8, 20])
+        mode = R.choice(["deterministic", "nondeterministic"])
+        doc = chain(R, max(1, limit - 1), 1, R.choice(["l", "d", "ld"]))
+        env = env_for(limit, mode)
+        text = R.choice(["$..*", "$..[*]", "$..[?@]"])
+        want = mon.want_sig(model.find(abn.ast(text), doc))
+        try:
+            with guard(120):
+                r1 = run_case(rec, env, want, text, doc, limit, mode, False, 1, 0, nesting(doc), R.getrandbits(32), {"shape": "then-deepened:first"})
+                # deepen in place: the innermost container gets a chain that exceeds the limit, or a reference back to the top
+                inner = doc
+                while True:
+                    nxt = [c for c in (inner.values() if isinstance(inner, dict) else inner) if isinstance(c, (list, dict))]
+                    if not nxt:
+                        break
+                    inner = nxt[0]
+                extra = doc if R.random() < 0.5 else chain(R, 4, 1, "l")
+                if isinstance(inner, list):
+                    inner.append(extra)
+                else:
+                    inner["deeper"] = extra
+                r2 = run_case(rec, env, None, text, doc, limit, mode, extra is doc, 1, 1, nesting(doc) if extra is not doc else None, R.getrandbits(32),
+                              {"shape": "then-deepened:second (same document object, same compiled query)"})
+        except CaseTimeout:
+            rec.timeout("deepened in place")
+            continue
+        rec.case(("deepened", limit, mode, text), True)
+        rec.feat("deepened-in-place:%s:%s->%s" % (mode, r1, r2))
     # adversarial choice script: always "visit the children later" (pure breadth-first) on a branching cycle
     for limit in (R.choice([13, 14]), R.choice([15, 16])):
         doc, kind, containers, branching = cyclic_shape(_random.Random(5))
